@@ -676,8 +676,8 @@ def Cap.reference {χ ν : Type} (M : χ → ν) : List (CapOp χ) → CapState 
   | .use i x :: ops, st =>
     (if i < st.objs.length then some (.ok (M x)) else some (.error .foreign)) :: Cap.reference M ops st
   | .drop i x :: ops, st =>
-    (if i < st.objs.length then some (.ok (M x)) else some (.error .foreign)) ::
-      Cap.reference M ops { st with objs := dropAt st.objs i }
+    if i < st.objs.length then some (.ok (M x)) :: Cap.reference M ops { st with objs := dropAt st.objs i }
+    else some (.error .foreign) :: Cap.reference M ops st
   | .call _ x :: ops, st => some (.ok (M x)) :: Cap.reference M ops st
 
 end Btc.C20
